@@ -236,10 +236,10 @@ def run(ctx):
                 ("stab", [s + 3, 3000]), ("dparams", [s + 4, 250]), ("indices", [s + 5, 300]),
                 ("pitchenc", [s + 6, 4000]), ("nlsfenc", [s + 7, 2000])]
     else:
-        jobs = [("gains", [s, 30000]), ("gquant", [s + 1, 100000]), ("pitch", []), ("nlsf", [s + 2, 150, 2000]),
-                ("nlsf", [s + 12, 150, 2000]), ("stab", [s + 3, 50000]), ("dparams", [s + 4, 3000]), ("dparams", [s + 14, 3000]),
-                ("indices", [s + 5, 4000]), ("indices", [s + 15, 4000]),
-                ("pitchenc", [s + 6, 100000]), ("nlsfenc", [s + 7, 8000]), ("nlsfenc", [s + 17, 8000])]
+        jobs = [("gains", [s, 30000]), ("gquant", [s + 1, 60000]), ("pitch", []), ("nlsf", [s + 2, 120, 1200]),
+                ("nlsf", [s + 12, 120, 1200]), ("stab", [s + 3, 30000]), ("dparams", [s + 4, 2000]), ("dparams", [s + 14, 2000]),
+                ("indices", [s + 5, 2500]), ("indices", [s + 15, 2500]),
+                ("pitchenc", [s + 6, 60000]), ("nlsfenc", [s + 7, 6000]), ("nlsfenc", [s + 17, 6000])]
 
     def gen(job):
         i, (cmd, args) = job
